@@ -75,7 +75,7 @@ ADDED = {
  "C04": " Later additions: carry-chain cells (full cross product of the coordinates 2^k-1, 2^k, 10 1..1 in every base cell) and 32 spread interior cells per base cell at every depth." + SEQ,
  "C05": " Later additions: radius-relative centres, centres at the narrowest cells of the start depth (exhaustive search), deep-large (1e4..1e5 cells) and deep-huge (radius / cell > 5e4, ~1e6 cells) strata. The former known finding KF-1 is repaired (fix f1d7abd) and no longer consulted." + SEQ,
  "C06": " Later additions: the deep-large / deep-huge / narrowest-cell strata of C05." + SEQ,
- "C07": " Later additions: operand SIZE SWEEP (every n = 1..520 / 4200 for 7 operand shapes), merge-cascade operands (every cascade length 1..29), coverage-sized operands." + SEQ,
+ "C07": " Later additions: operand SIZE SWEEP (every n = 1..520 / 4000 for 7 operand shapes), merge-cascade operands (every cascade length 1..29), coverage-sized operands." + SEQ,
  "C08": " Later additions: the size sweep, merge cascades and coverage-sized operands of C07 with mixed flags." + SEQ,
  "C09": " Later additions: size sweep and merge cascades through all views." + SEQ,
  "C10": " Later additions: EVERY polar ring (last index, first of the next, one generic index) of depths 12..18 (quick) / 14..29 (thorough); carry-chain NESTED cells." + SEQ,
